@@ -1474,6 +1474,10 @@ func GetOrCreateUserInitialized(db *sql.DB, username string, domainID int64) (in
 
 // createDefaultMailboxes creates default mailboxes for a new user.
 // Kept here with other schema helpers so migrations and initialization stay together.
+// It is called every time a per-user database is opened: the mailboxes are
+// created only while the table is still empty (INBOX can be neither deleted nor
+// renamed away, so an initialized database never is), and in one transaction,
+// so that an interrupted initialization is completed by the next one.
 func createDefaultMailboxes(db *sql.DB, userID int64) error {
 	defaultMailboxes := []struct {
 		name       string
@@ -1486,14 +1490,31 @@ func createDefaultMailboxes(db *sql.DB, userID int64) error {
 		{"Spam", "\\Junk"},
 	}
 
+	var count int
+	if err := db.QueryRow("SELECT COUNT(*) FROM mailboxes").Scan(&count); err != nil {
+		return fmt.Errorf("failed to count mailboxes: %v", err)
+	}
+	if count > 0 {
+		return nil
+	}
+
+	tx, err := db.Begin()
+	if err != nil {
+		return err
+	}
+	defer func() { _ = tx.Rollback() }()
+
 	for _, mbx := range defaultMailboxes {
-		_, err := CreateMailboxPerUser(db, userID, mbx.name, mbx.specialUse)
+		_, err := tx.Exec(`
+			INSERT INTO mailboxes (user_id, name, uid_validity, uid_next, special_use)
+			VALUES (?, ?, ?, ?, ?)
+		`, userID, mbx.name, time.Now().Unix(), 1, mbx.specialUse)
 		if err != nil {
 			return fmt.Errorf("failed to create mailbox %s: %v", mbx.name, err)
 		}
 	}
 
-	return nil
+	return tx.Commit()
 }
 
 // createSharedIndexes creates indexes for shared database tables
